@@ -137,6 +137,9 @@ def gen_function(contract, contracts, known=()):
             S.GHOST["fft"] = []
             S.GHOST["sum"] = []
             S.GHOST["ndi"] = []
+            S.GHOST["mean"] = []
+            S.GHOST["masked_mean"] = []
+            S.GHOST["sum_labels"] = []
             interp.write_log = []
             interp.spec = 0
             V.reset_fresh()
